@@ -131,7 +131,17 @@ def traits(repo):
     if pshist:
         if _stored_by_reference(pa2[0], {"params_of_particle"}) or T._dotted(la2[0]) != "log_likelihood":
             raise T.TranslationError("FitnessPySwarms.__call__ history does not store a copy of the particle / its likelihood")
-    return {"impl_alias_params": alias, "impl_inplace_chi2": inplace, "impl_pyswarms_history": pshist}
+    # Fitness.__init__: are the history lists created before the sanity evaluation that may append to them?
+    init = T.find_function(tree, "Fitness.__init__")
+    checks = [n for n in ast.walk(init) if isinstance(n, ast.Call) and T._dotted(n.func) == "self.check_log_likelihood"]
+    created = T.assigns(init, "self.parameters_history_list") + T.assigns(init, "self.log_likelihood_history_list")
+    if len(checks) != 1 or len(created) != 2:
+        raise T.TranslationError("Fitness.__init__: expected one check_log_likelihood call and one creation of each history list")
+    late = [a.lineno > checks[0].lineno for a in created]
+    if late[0] != late[1]:
+        raise T.TranslationError("Fitness.__init__: history lists created on different sides of check_log_likelihood")
+    return {"impl_alias_params": alias, "impl_inplace_chi2": inplace, "impl_pyswarms_history": pshist,
+            "impl_ctor_history_late": late[0]}
 
 
 def regenerate(repo=None):
@@ -361,20 +371,42 @@ def gen_case(rng, forced=None):
             else:
                 ops.append(["call", rng.randrange(nbuf)])
     resample = rng.choice([-INF, -INF, -1e99, 1e99, -1.0e10, rfloat(rng), NAN if rng.random() < 0.3 else -INF])
-    return {"ps": ps, "flags": fl, "resample": hx(resample), "container": container, "defaults": rng.random() < 0.5, "model": md,
-            "script": gen_script(rng, md), "buffers": [[hx(x) for x in b] for b in buffers], "ops": ops}
+    script = gen_script(rng, md)
+    if n > 0 and not wrong_len and rng.random() < 0.05:
+        # infinite likelihood meeting an infinite prior term: the posterior is nan although the likelihood is not
+        md["priors"][0] = {"kind": "LG", "a": hx(0.5), "b": hx(1.0), "lo": hx(0.0), "hi": hx(INF)}
+        md["asserts"] = [a for a in md["asserts"] if a["l"].get("p") != 0 and a["r"].get("p") != 0]
+        script["bias"] = hx(INF)
+        script["weights"] = [hx(abs(unhex(w))) for w in script["weights"]]
+        script["exc"] = script["nan"] = None
+        for b in buffers:
+            b[0] = 0.0 if rng.random() < 0.6 else 1.5
+        for o in ops:
+            if o[0] == "write":
+                o[2][0] = hx(0.0 if rng.random() < 0.6 else 1.5)
+    case = {"ps": ps, "flags": fl, "resample": hx(resample), "container": container, "defaults": rng.random() < 0.5, "model": md,
+            "script": script, "buffers": [[hx(x) for x in b] for b in buffers], "ops": ops}
+    if not ps and fl["like"] and rng.random() < forced.get("ctor_p", 0.2):
+        # constructed with the paths of a resumed fit: the stored best vector is one of the buffers and the stored
+        # figure of merit is what the property says it is (so the sanity check itself must pass)
+        for b in rng.sample(range(nbuf), nbuf):
+            e = evaluate(case, buffers[b])
+            if e[0] == "ok" and math.isfinite(e[1]):
+                case["ctor"] = {"pbuf": b, "old": hx(e[1] * -2.0 if fl["chi2"] else e[1])}
+                break
+    return case
 
 
 def gen_cases(ctx):
     rng = ctx.rng
-    n = 420 if ctx.tier != "thorough" else 4000
+    n = 900 if ctx.tier != "thorough" else 20000
     cases = []
     # every flag combination for both interfaces first, then the random stream
     for ps in (False, True):
         for like in (True, False):
             for chi2 in (True, False):
                 for store in (True, False):
-                    for _ in range(3 if ctx.tier != "thorough" else 12):
+                    for _ in range(4 if ctx.tier != "thorough" else 20):
                         cases.append(gen_case(rng, {"ps": ps, "flags": {"like": like, "chi2": chi2, "store": store}}))
     while len(cases) < n:
         cases.append(gen_case(rng))
@@ -387,6 +419,7 @@ def gen_cases(ctx):
 CLS_ALIAS = "history-aliases-caller-buffer"
 CLS_INPLACE = "inplace-chi2-on-boxed-likelihood"
 CLS_PSHIST = "pyswarms-ignores-store-history"
+CLS_CTOR = "resumed-paths-sanity-check-with-store-history"
 
 
 def slots_of(md):
@@ -469,6 +502,14 @@ def expected(c, lp):
             f = f * -2.0
         return f, e[1]
 
+    if c.get("ctor"):
+        # the sanity evaluation inside the constructor is an evaluation like any other
+        b = c["ctor"]["pbuf"]
+        vec = list(heap[b])
+        f, ll = one(vec)
+        if ll is not None and fl["store"]:
+            hist.append(([hx(x) for x in vec], hx(ll)))
+            hist_src.append((-1, b))
     for t, op in enumerate(c["ops"]):
         if op[0] == "write":
             heap[op[1]] = [unhex(x) for x in op[2]]
@@ -493,6 +534,9 @@ def expected(c, lp):
 def oracle(c, r, exp):
     """-> list of (message, classes).  Empty list = the implementation satisfies C04 on this case."""
     fails = []
+    if r.get("ctor_raised"):
+        cls = [CLS_CTOR] if (c.get("ctor") and c["flags"]["store"]) else []
+        return [("constructing the fitness for a resumed fit raised %s: %s" % (r["ctor_raised"]["esc"], r["ctor_raised"]["msg"]), cls)]
     if not (r["ids_ascending"] and r["ordered_is_creation"] and r["prior_count"] == len(c["model"]["priors"])):
         fails.append(("abstraction: priors_ordered_by_id is not the creation order of the generated priors", []))
     # figures of merit / escapes
@@ -512,6 +556,10 @@ def oracle(c, r, exp):
     want = exp["hist"]
     if len(hp) != len(hl):
         fails.append(("history lists have different lengths %d / %d" % (len(hp), len(hl)), []))
+    elif c.get("ctor") and c["flags"]["store"] and len(hp) == len(want) - 1 and hp == [w[0] for w in want[1:]] and \
+            hl == [w[1] for w in want[1:]]:
+        # only possible once the constructor no longer raises: the sanity evaluation itself is not in the history
+        fails.append(("history lacks the vector evaluated by the constructor's sanity check", []))
     elif len(hp) != len(want):
         cls = [CLS_PSHIST] if (c["ps"] and c["flags"]["store"] and len(hp) == 0) else []
         fails.append(("history has %d entries, %d vectors were successfully evaluated" % (len(hp), len(want)), cls))
@@ -585,6 +633,10 @@ def coq_case(c, r):
             ops.append("OBatch %s" % clist([cnat(b) for b in op[1]]))
     outs = clist([clist([cres(g) for g in row]) for row in r["out"]])
     hist = clist([cpair(clist([cf(x) for x in p]), cf(l)) for p, l in zip(r["hist_p"], r["hist_l"])])
+    if c.get("ctor"):
+        return "CCtor %s %s\n   %s\n   %s\n   %s\n   %s\n   %s %s\n   %s\n   %s %s\n   %s" % (
+            flags, cf(c["resample"]), model, script, tab, sumtab, heap0, cnat(c["ctor"]["pbuf"]), clist(ops),
+            cbool(bool(r.get("ctor_raised"))), outs, hist)
     return "CSeq %s %s %s\n   %s\n   %s\n   %s\n   %s\n   %s\n   %s\n   %s\n   %s" % (
         cbool(c["ps"]), flags, cf(c["resample"]), model, script, tab, sumtab, heap0, clist(ops), outs, hist)
 
@@ -673,6 +725,7 @@ def run(ctx):
         ctx.hist("container", c["container"])
         ctx.hist("writes", sum(1 for o in c["ops"] if o[0] == "write"))
         ctx.hist("assertions", len(c["model"]["asserts"]))
+        ctx.hist("constructed-with-resumed-paths", bool(c.get("ctor")))
         fails = oracle(c, r, exp)
         verdicts[i] = fails
         for msg, classes in fails:
@@ -684,7 +737,7 @@ def run(ctx):
             ctx.sample({"case": c, "observed": {"out": r["out"], "hist_p": r["hist_p"], "hist_l": r["hist_l"]}}, limit=5)
     if os.path.exists(os.path.join(common.COQ, "C04", "Model.vo")):
         hdr = ctx.header(["Common.PyFloat", "Gen", "Model"])
-        bad, log = ctx.eval_cases(hdr, "case", "check_case", coq_cases, shard=40 if ctx.tier != "thorough" else 250)
+        bad, log = ctx.eval_cases(hdr, "case", "check_case", coq_cases, shard=60 if ctx.tier != "thorough" else 250)
         if bad:
             for b in bad[:5]:
                 i = coq_idx[b]
